@@ -587,6 +587,19 @@ func BuildSummary(s *AnalyzerState, function *ssa.Function) *SummaryGraph {
 	if summary == nil {
 		id := GetUniqueFunctionID()
 		summary = NewPredefinedSummary(function, id)
+		if summary == nil {
+			// The function has no predefined summary (e.g. a closure that is never called and therefore was not
+			// summarized in the first pass): create an empty summary graph that will be built below.
+			// The tracking predicate is inherited from the enclosing function's summary when there is one.
+			shouldTrack := func(*AnalyzerState, ssa.Node) bool { return false }
+			for parent := function.Parent(); parent != nil; parent = parent.Parent() {
+				if ps := s.FlowGraph.Summaries[parent]; ps != nil && ps.shouldTrack != nil {
+					shouldTrack = ps.shouldTrack
+					break
+				}
+			}
+			summary = NewSummaryGraph(s, function, id, shouldTrack, nil)
+		}
 		s.FlowGraph.Summaries[function] = summary
 	}
 	logger := s.Logger
